@@ -24,6 +24,10 @@ from simcore.world import MUTATING, O, SimWorld, snapshot
 
 KEYS = ["a", "b", "c"]
 VALS = [0, 1, 2]
+# three values per scenario; the pools differ in what they contain (null, strings, booleans, floats) but
+# none holds two values that are equal in Python and different as JSON (that is the dependency's
+# open assignment finding, injected separately)
+POOLS = [[0, 1, 2], [0, 1, 2], [None, "x", 1], [False, "", 2], [1.5, "a b", None], [0, None, "0"]]
 FILES = ["f1", "f2", "sub/g"]
 
 _FAMILY = {}
@@ -75,6 +79,15 @@ class Engine(EngineBase):
 
     # ------------------------------------------------------------------
     def generate(self, rng, tier):
+        global VALS
+        saved = VALS
+        VALS = rng.choice(POOLS)
+        try:
+            return self._generate(rng, tier)
+        finally:
+            VALS = saved
+
+    def _generate(self, rng, tier):
         P = self.prop
         knobs = {"listing": rng.choice(["shuffle", "shuffle", "sorted", "reverse"]),
                  "chunk": rng.choice(["none", "split2"]), "clock": rng.choice(["inc", "coarse"])}
@@ -652,6 +665,18 @@ class Run:
                 self.shortcut = (hd.group, why, dict(hd.sp))
         try:
             self._rekey3(op, hd, new_sp, do, pre_error)
+            if self.shortcut is not None and pre_error is None:
+                # the input has the shape of the dependency's open finding: if it struck (also where no
+                # other oracle looks, e.g. a job that is not on disk) the model has diverged - the run
+                # ends here as that finding instead of carrying a wrong state point along
+                try:
+                    got = hd.obj.statepoint()
+                except Exception:  # noqa: BLE001
+                    got = None
+                if got is not None and not same(got, new_sp) and not hd.refused:
+                    raise Mismatch("C04", "C04:assign:" + self.shortcut[1],
+                                   f"op {op}: the handle shows {got}, assigned {new_sp} [old state point "
+                                   f"{self.shortcut[2]}]", "C04:assign:" + self.shortcut[1])
         except Mismatch as m:
             # two input classes for which the in-place update of the dependency
             # (synced_collections SyncedDict._update, used by reset) keeps the old value
